@@ -246,6 +246,7 @@ func (env *Env) setup() error {
 		env.Root, env.RootCloser = tally.NewRootScope(opts, time.Duration(cfg.IntervalNs))
 		env.main.scopes[0] = &scopeVar{sc: env.Root, ptr: objPtr(env.Root), model: env.Model.Root()}
 	case "test":
+		cfg.DefBuckets = nil // NewTestScope takes no default buckets
 		ts := tally.NewTestScope(cfg.Prefix, copyTags(cfg.RootTags))
 		env.Root = ts
 		if c, ok := ts.(io.Closer); ok {
